@@ -1,0 +1,14 @@
+//go:build verif
+
+package utils
+
+// VerifYieldHook is set by the verification harness (build tag verif only). It is called at
+// named points between two shared-state effects so that a scheduler can interleave goroutines
+// deterministically. It must be set before the goroutines under test start.
+var VerifYieldHook func(point string)
+
+func verifYield(point string) {
+	if h := VerifYieldHook; h != nil {
+		h(point)
+	}
+}
